@@ -5,6 +5,9 @@
 
 namespace rxv { namespace cases {
 
+// a valid pointer even for an empty buffer (std::vector::data() may be null then)
+inline const uint8_t* nn(const std::vector<uint8_t>& v) { static const uint8_t z = 0; return v.empty() ? &z : v.data(); }
+
 // index selects a structured case first, then random ones
 inline std::vector<uint8_t> makeKey(Rng& rng, uint64_t index) {
 	static const size_t lens[] = { 32, 0, 1, 12, 59, 60, 61, 64, 200, 8, 55, 56, 63, 65, 127, 128, 129, 500 };
